@@ -283,7 +283,8 @@ def _add_defaults(rng, fields):
     for f in fields:
         k = f["t"]["k"]
         can = k in ("int", "str", "bool", "none") or (k == "union" and any(a["k"] == "none" for a in f["t"]["a"]))
-        if not started and rng.random() < 0.6:
+        opt = k == "union" and any(a["k"] == "none" for a in f["t"]["a"])
+        if not started and rng.random() < (0.25 if opt else 0.6):
             continue
         if can:
             started = True
@@ -295,6 +296,15 @@ def _add_defaults(rng, fields):
                 f["default"] = rng.choice([True, False])
             else:
                 f["default"] = None
+                # an optional member whose default is not None: None is then a value like any other
+                ks = [a["k"] for a in f["t"]["a"]] if k == "union" else []
+                if rng.random() < 0.5:
+                    if "int" in ks:
+                        f["default"] = rng.choice([3, 0])
+                    elif "str" in ks:
+                        f["default"] = "dflt"
+                    elif "bool" in ks:
+                        f["default"] = True
         elif started:
             # a non-default field may not follow a default one: give it a factory if possible
             if k in ("list",):
@@ -338,6 +348,11 @@ def gen_struct(rng, view, cfg, name, *, depth=2, kind=None, hashable=False, futu
     kind = kind or core.weighted(rng, STRUCT_KINDS)
     n = rng.randint(1, 4)
     fields = _fields(rng, view, cfg, n, depth, hashable=hashable)
+    if kind != "typeddict" and rng.random() < 0.2:
+        # an optional member whose default is not None comes last: None is then a value like any
+        # other, and not the same as leaving the member out
+        inner, dv = rng.choice([("int", 3), ("str", "dflt"), ("int", 0), ("bool", True)])
+        fields.append({"n": "optd", "t": {"k": "union", "sp": rng.choice(["optional", "pipe", "typing"]), "a": [{"k": inner}, {"k": "none"}]}, "default": dv})
     d = {"d": kind, "n": name, "fields": fields}
     if kind == "dataclass":
         flags = {}
@@ -353,6 +368,12 @@ def gen_struct(rng, view, cfg, name, *, depth=2, kind=None, hashable=False, futu
     elif kind in ("plain", "slotsclass"):
         if rng.random() < 0.6:
             d["sigonly"] = True
+        if rng.random() < 0.3:
+            _add_defaults(rng, fields)
+            if any("factory" in f for f in fields):  # a plain signature has no factories
+                for g in fields:
+                    g.pop("default", None)
+                    g.pop("factory", None)
     if kind == "namedtuple":
         if rng.random() < 0.4:
             _add_defaults(rng, fields)
@@ -399,6 +420,9 @@ CYCLE_EDGES = ["optional", "list", "dict", "tuplevar", "pipe"]
 
 def _edge(rng, target: dict, kind=None) -> dict:
     kind = kind or rng.choice(CYCLE_EDGES)
+    if kind == "bare":
+        # the member class itself, required: the cycle is closed through the other classes' edges
+        return target
     if kind == "optional":
         return {"k": "union", "sp": "optional", "a": [target, {"k": "none"}]}
     if kind == "pipe":
@@ -414,10 +438,15 @@ def gen_recursive_group(rng, view, cfg, mod: str, base_index: int) -> list[dict]
     n = core.weighted(rng, [(5, 1), (3, 2), (1, 3)])
     names = [f"VwR{base_index + i}" for i in range(n)]
     decls = []
+    # in a cycle over several classes some hops may be plain member classes ("X | None in a field of a
+    # member class"): at least one edge of the cycle stays one that a value can end at
+    bare = [n >= 2 and rng.random() < 0.35 for _ in range(n)]
+    if all(bare):
+        bare[rng.randrange(n)] = False
     for i, nm in enumerate(names):
         nxt = {"k": "ref", "m": mod, "n": names[(i + 1) % n]}
         fields = [{"n": "v", "t": {"k": rng.choice(["int", "str", "int", "date", "uuid"])}}]
-        edge = _edge(rng, nxt)
+        edge = _edge(rng, nxt, "bare" if bare[i] else None)
         f = {"n": "nxt", "t": edge}
         fields.append(f)
         if rng.random() < 0.3:
